@@ -815,7 +815,11 @@ def mpf_sum(xs, prec=0, rnd=round_fast, absolute=False):
     """
     man = 0
     exp = 0
-    max_extra_prec = prec*2 or 1000000  # XXX
+    # Terms whose exponents are further apart than this are not added
+    # exactly. The exact products summed by fdot have mantissas of up to
+    # 2*prec bits, so products of comparable magnitude can have exponents
+    # almost 3*prec apart
+    max_extra_prec = prec*4 or 1000000  # XXX
     special = None
     for x in xs:
         xsign, xman, xexp, xbc = x
